@@ -107,7 +107,7 @@ SPEC = {
         "error_pos_in_range", "tokens_before_error_tile", "lexing_terminates", "read_panics_only_static_rest",
         "release_build_never_panics", "debug_build_panics_on_unterminated_comment",
         "int_value_exact", "int_value_exact_partial", "int_overflow_rejected", "literalInt_radix",
-        "int_value_exact_fails_for_suffix_l", "lex_float_nearest", "nearest64_unfold", "nearest_correct_partial",
+        "int_value_exact_fails_for_suffix_l", "token_numeric_dispatch", "lex_float_nearest", "nearest64_unfold", "nearest_correct_partial",
         "nearest_exact_on_representable"]],
     "harness": "c10",
     "nontrivial": nontrivial,
